@@ -613,12 +613,13 @@ type modSet struct {
 	calls   bool
 	wslices map[types.Object]bool // slice variables written through
 	unknownWrite bool
+	nonIdx  map[types.Object]bool // written through by append/copy (not only by index)
 	paths   []string // selector paths assigned in the loop (or listed under on-call modifies)
 	node    ast.Node
 }
 
 func (fc *FnCtx) modified(nodes ...ast.Node) *modSet {
-	ms := &modSet{vars: map[types.Object]bool{}, wslices: map[types.Object]bool{}}
+	ms := &modSet{vars: map[types.Object]bool{}, wslices: map[types.Object]bool{}, nonIdx: map[types.Object]bool{}}
 	if fc.contract != nil && len(fc.contract.Stable) > 0 {
 		ms.paths = fc.assignedPaths(nodes...)
 		for _, n := range nodes {
@@ -730,6 +731,7 @@ func (fc *FnCtx) modified(nodes ...ast.Node) *modSet {
 							ms.heap = true
 							if o := rootVar(x.Args[0]); o != nil {
 								ms.wslices[o] = true
+								ms.nonIdx[o] = true
 							} else {
 								ms.unknownWrite = true
 							}
@@ -737,6 +739,7 @@ func (fc *FnCtx) modified(nodes ...ast.Node) *modSet {
 							ms.heap = true
 							if o := rootVar(x.Args[0]); o != nil {
 								ms.wslices[o] = true
+								ms.nonIdx[o] = true
 							} else {
 								ms.unknownWrite = true
 							}
@@ -801,6 +804,7 @@ func (fc *FnCtx) havocForLoop(st *State, ms *modSet, entry *State) {
 		// frame: regions existing at loop entry and not written through stay unchanged
 		if !ms.unknownWrite {
 			var excl []T
+			var wins []heapWindow
 			ok := true
 			for o := range ms.wslices {
 				v, isVar := o.(*types.Var)
@@ -815,7 +819,13 @@ func (fc *FnCtx) havocForLoop(st *State, ms *modSet, entry *State) {
 					break
 				}
 				if sv, isS := ev.(VSlice); isS {
-					excl = append(excl, sv.Rgn)
+					if !ms.nonIdx[o] && !ms.vars[o] {
+						// written only by index through a slice variable the loop never reassigns:
+						// every write lands inside its window (bounds obligation), the rest of the region is untouched
+						wins = append(wins, heapWindow{sv.Rgn, sv.Off, fc.define(add(sv.Off, sv.Len), "whi")})
+					} else {
+						excl = append(excl, sv.Rgn)
+					}
 				} else {
 					ok = false
 					break
@@ -828,7 +838,13 @@ func (fc *FnCtx) havocForLoop(st *State, ms *modSet, entry *State) {
 				for _, e := range excl {
 					conds = append(conds, neq(r, e))
 				}
+				for _, w := range wins {
+					conds = append(conds, neq(r, w.rgn))
+				}
 				fc.assume(st, forallInt(r.S, implies(and(conds...), eq(sel(st.heap, r), sel(old, r))), sel(st.heap, r)))
+				if len(wins) > 0 {
+					fc.assume(st, fc.unchangedOutside(old, st.heap, oldNext, excl, wins))
+				}
 			}
 		}
 	}
